@@ -119,12 +119,12 @@ pub fn plans(ctx: &WorkerCtx) -> Vec<Plan> {
     let mut v = vec![];
     let dd = d3.clone();
     let dd1 = dd.clone();
-    v.push(Plan { name: "one blocker x framework fraction".into(), cfgs: fam::singles(&blks, &fw), alpha_for: Box::new(move |c: &Cfg| alphabet(c.machines.len(), dd1.clone())), opts: Opts { depth: if q { 4 } else { 6 }, ..base.clone() }, walk: None });
+    v.push(Plan { name: "one blocker x framework fraction".into(), cfgs: fam::singles(&blks, &fw), alpha_for: Box::new(move |c: &Cfg| alphabet(c.machines.len(), dd1.clone())), opts: Opts { depth: if q { 5 } else { 6 }, ..base.clone() }, walk: None });
     let sub: Vec<_> = blks.iter().step_by(if q { 5 } else { 2 }).cloned().collect();
     let dd2 = dd.clone();
-    v.push(Plan { name: "two blockers".into(), cfgs: fam::all_pairs(&sub, &sub, if q { &fw[1..3] } else { &fw }), alpha_for: Box::new(move |c: &Cfg| alphabet(c.machines.len(), dd2.clone())), opts: Opts { depth: if q { 3 } else { 4 }, ..base.clone() }, walk: None });
+    v.push(Plan { name: "two blockers".into(), cfgs: fam::all_pairs(&sub, &sub, if q { &fw[1..3] } else { &fw }), alpha_for: Box::new(move |c: &Cfg| alphabet(c.machines.len(), dd2.clone())), opts: Opts { depth: if q { 4 } else { 4 }, ..base.clone() }, walk: None });
     let d51 = d5.clone();
-    v.push(Plan { name: "one blocker, five time steps (0,+1,+3,+1000,-2)".into(), cfgs: fam::singles(&blks, if q { &fw[1..3] } else { &fw }).into_iter().step_by(if q { 2 } else { 1 }).collect(), alpha_for: Box::new(move |c: &Cfg| alphabet(c.machines.len(), d51.clone())), opts: Opts { depth: if q { 3 } else { 5 }, ..base.clone() }, walk: None });
+    v.push(Plan { name: "one blocker, five time steps (0,+1,+3,+1000,-2)".into(), cfgs: fam::singles(&blks, if q { &fw[1..3] } else { &fw }).into_iter().step_by(if q { 2 } else { 1 }).collect(), alpha_for: Box::new(move |c: &Cfg| alphabet(c.machines.len(), d51.clone())), opts: Opts { depth: if q { 4 } else { 5 }, ..base.clone() }, walk: None });
     let g2: Vec<_> = fam::g2(if q { 1999 } else { 199 }, 11).into_iter().filter(|(_, m)| format!("{:?}", m).contains("BlockOutgoing")).collect();
     let dd3 = d3.clone();
     v.push(Plan { name: "G2 machines with blocking actions, pairs".into(), cfgs: fam::pairs_strided(&g2, 31, 7, &[(0.0, 0.5), (0.0, 0.25), (0.0, 1.0)]), alpha_for: Box::new(move |c: &Cfg| Alphabet { batches: all_single_events(c.machines.len(), false).into_iter().map(|e| vec![e]).collect(), deltas: dd3.clone() }), opts: Opts { depth: if q { 2 } else { 3 }, ..base.clone() }, walk: None });
@@ -139,7 +139,7 @@ pub fn plans(ctx: &WorkerCtx) -> Vec<Plan> {
     let mut tcfgs = fam::singles(&tiny, &[(0.0, 0.0), (0.0, 1.0)]);
     tcfgs.extend(fam::singles(&blks.iter().filter(|(n, _)| n.contains("repfalse") && (n.ends_with("frac0]") || n.ends_with("frac1]"))).cloned().collect::<Vec<_>>(), &[(0.0, 5e-324), (0.0, f64::EPSILON)]));
     let dd4 = d3.clone();
-    v.push(Plan { name: "own and framework blocking fractions at the bottom of the valid range (5e-324 .. f64::EPSILON)".into(), cfgs: tcfgs, alpha_for: Box::new(move |c: &Cfg| alphabet(c.machines.len(), dd4.clone())), opts: Opts { depth: if q { 4 } else { 6 }, ..base.clone() }, walk: None });
+    v.push(Plan { name: "own and framework blocking fractions at the bottom of the valid range (5e-324 .. f64::EPSILON)".into(), cfgs: tcfgs, alpha_for: Box::new(move |c: &Cfg| alphabet(c.machines.len(), dd4.clone())), opts: Opts { depth: if q { 5 } else { 6 }, ..base.clone() }, walk: None });
     v
 }
 
